@@ -156,11 +156,22 @@ def do_op(op, mutate=False):
         if kind == "legal":
             from props import c09
             c = op["fp"]
+            from tools.legalfloor import legalfloor as LF
             nl, model = c09.build_model(c)
             try:
+                if mutate:
+                    model.time_advance(3)  # a history operation that leaves its model half-way through the annealing
+                    return ["ok"]
                 model.time.assign(1000.0)
-                out = ["ok", sorted([g, e.name, bool(e.is_equation_met())] for g, e in c09.equations(model)),
-                       [len(m.x) for m in model.M]]
+                met0 = sorted([g, e.name, bool(e.is_equation_met())] for g, e in c09.equations(model))
+                slack = LF.get_epsilon()
+                # the same model at a slightly illegal configuration (every width 2% smaller): which equations notice
+                # depends on the slack the model was built with
+                for m in model.M:
+                    for w in m.w:
+                        w.assign(w.evaluate() * 0.98)
+                met1 = sorted([g, e.name, bool(e.is_equation_met())] for g, e in c09.equations(model))
+                out = ["ok", met0, [len(m.x) for m in model.M], slack, met1]
             finally:
                 c09.cleanup(model)
             return sig12(out)
